@@ -230,7 +230,162 @@ def group_typestate(rep, R4, enc, cnt, gsize, where):
                 rep.ok(R4, {"group_capacity": "the group-full test lies between any two token counts"})
 
 
+def stray_flag_rule(rep, R4, body, where):
+    """In-place group framing (`flag_index = out.len(); out.push(0)` and `out[flag_index] |= bit` later): a flag byte
+    pushed into the output must be followed by at least one token on every way out of the function.  A push that sits
+    after the token emission ("group full, open the next one") is followed by none when the input ends right there:
+    one stray byte after the last group."""
+    # the output vector: the one whose length is saved in a local right before a constant-zero byte is pushed to it
+    def vec_local(op):
+        pl = op.get("m") or op.get("c")
+        for _ in range(6):
+            if pl is None:
+                return None
+            if pl["p"] not in ([], ["deref"]):
+                return None
+            l = pl["l"]
+            if body.local_name(l) or l <= body.argc:
+                return l
+            ds = body.defs().get(l, [])
+            if len(ds) != 1 or ds[0][2] != "assign":
+                return None
+            rv = ds[0][3]["rv"]
+            pl = rv["place"] if rv["k"] == "ref" else (rv["a"].get("m") or rv["a"].get("c") if rv["k"] in ("use", "cast") else None)
+        return None
+    pushes = []      # (block, vec local, is constant zero)
+    for bb, t in body.calls():
+        nm = callee_names(t)[1] or ""
+        if nm.startswith("std::vec::Vec") and nm.endswith("::push") and len(t["args"]) == 2:
+            v = vec_local(t["args"][0])
+            val = body.term_of_operand(t["args"][1])
+            pushes.append((bb, v, val[0] == "const" and val[1] == 0))
+        elif nm.startswith("std::vec::Vec") and nm.rsplit("::", 1)[-1] in ("extend_from_slice", "extend") and len(t["args"]) == 2:
+            pushes.append((bb, vec_local(t["args"][0]), False))
+    # index-saving: `idx = len(vec)` named local, used later as `vec[idx] |= ..`
+    saved = set()
+    for bb, t in body.calls():
+        nm = callee_names(t)[1] or ""
+        if nm.endswith("::len") and "Vec" in nm and t["args"]:
+            v = vec_local(t["args"][0])
+            d = t["dest"]["l"]
+            # the length flows into a named local
+            for bi, si, st in body.stmts():
+                if st["k"] == "assign" and not st["lhs"]["p"] and body.local_name(st["lhs"]["l"]) and st["rv"]["k"] in ("use", "cast") and (st["rv"]["a"].get("m") or st["rv"]["a"].get("c") or {}).get("l") == d:
+                    saved.add(v)
+            if body.local_name(d):
+                saved.add(v)
+    saved.discard(None)
+    if not saved:
+        return
+    loops = body.loops()
+    in_loop = set()
+    for blks in loops.values():
+        in_loop |= set(blks)
+    flag_pushes = [(bb, v) for bb, v, z in pushes if z and v in saved and bb in in_loop]
+    if not flag_pushes:
+        return
+    token_blocks = {}
+    for bb, v, z in pushes:
+        if not z:
+            token_blocks.setdefault(v, set()).add(bb)
+    shrink = set(bb for bb, t in body.calls() if (callee_names(t)[1] or "").startswith("std::vec::Vec") and (callee_names(t)[1] or "").rsplit("::", 1)[-1] in ("pop", "truncate", "set_len", "drain", "remove"))
+    def const_assigns(x):
+        out = {}
+        for st in body.blocks[x]["stmts"]:
+            if st["k"] == "assign" and not st["lhs"]["p"]:
+                k = st["rv"]["a"].get("k") if st["rv"]["k"] == "use" else None
+                if k and k.get("val", {}).get("kind") == "int":
+                    out[st["lhs"]["l"]] = k["val"]["v"]
+                else:
+                    out[st["lhs"]["l"]] = None
+        tt = body.blocks[x]["term"]
+        if tt["k"] == "call" and not tt["dest"]["p"]:
+            out[tt["dest"]["l"]] = None
+        return out
+
+    def resolve_local(l):
+        """a comparison temp `_t = copy counter`: the named local behind it"""
+        for _ in range(4):
+            ds = body.defs().get(l, [])
+            if body.local_name(l) or len(ds) != 1 or ds[0][2] != "assign" or ds[0][3]["rv"]["k"] not in ("use", "cast"):
+                return l
+            pl = ds[0][3]["rv"]["a"].get("m") or ds[0][3]["rv"]["a"].get("c")
+            if pl is None or pl["p"]:
+                return l
+            l = pl["l"]
+        return l
+    for fb, v in flag_pushes:
+        toks = token_blocks.get(v, set())
+        # values known right after the push (`buffered = 0` next to it), carried along and used to decide the
+        # branches that test them: the counter is 0 at the loop exit reached from here
+        kv0 = {k: val for k, val in const_assigns(fb).items() if val is not None}
+        seen, todo = set(), [(s_, tuple(sorted(kv0.items()))) for s_ in body.succs(fb)]
+        stray = False
+        undone = False
+        while todo:
+            x, kvt = todo.pop()
+            if (x, kvt) in seen or body.blocks[x]["cleanup"]:
+                continue
+            seen.add((x, kvt))
+            if x in toks:
+                continue
+            if x in shrink:
+                undone = True
+                continue
+            tt = body.blocks[x]["term"]
+            if tt["k"] == "ret":
+                stray = True
+                continue
+            kv = dict(kvt)
+            for l_, val_ in const_assigns(x).items():
+                if val_ is None:
+                    kv.pop(l_, None)
+                else:
+                    kv[l_] = val_
+            nxt = list(body.succs(x))
+            if tt["k"] == "switch":
+                d_ = body.term_of_operand(tt["d"])
+                val = None
+                dl = tt["d"].get("m") or tt["d"].get("c")
+                # the switch operand is a temp holding `counter OP const`
+                for st in body.blocks[x]["stmts"]:
+                    if st["k"] == "assign" and dl is not None and st["lhs"]["l"] == dl["l"] and st["rv"]["k"] == "bin":
+                        a_ = st["rv"]["a"].get("m") or st["rv"]["a"].get("c")
+                        b_ = st["rv"]["b"].get("k")
+                        if a_ is not None and not a_["p"] and b_ and b_.get("val", {}).get("kind") == "int":
+                            al = resolve_local(a_["l"])
+                            if al in kv:
+                                k_ = b_["val"]["v"]
+                                val = {"Eq": kv[al] == k_, "Ne": kv[al] != k_, "Lt": kv[al] < k_, "Le": kv[al] <= k_, "Gt": kv[al] > k_, "Ge": kv[al] >= k_}.get(st["rv"]["op"])
+                if val is not None:
+                    tk = tt["otherwise"]
+                    for v_, b2 in tt["targets"]:
+                        if v_ == int(val):
+                            tk = b2
+                    nxt = [tk]
+            kvt2 = tuple(sorted(kv.items()))
+            todo.extend((n_, kvt2) for n_ in nxt)
+        line = body.blocks[fb]["term"].get("line")
+        if stray:
+            rep.violation(R4, body.name, "stray-flag", "the flag byte pushed at line %s opens a new group after the tokens of the old one; when the input ends there the function returns with that byte in the output and no token under it: one stray byte after the last group" % line, where)
+        elif undone:
+            rep.inconc(R4, "a flag byte pushed at line %s can be followed by the end of the input and is then taken back (pop / truncate); not checked further" % line)
+        else:
+            rep.ok(R4, {"in_place_flag": "every flag byte pushed at line %s is followed by a token on all ways out" % line})
+
+
 def token_checks(rep, R2, R4, enc, forms, where, flag_shift=7):
+    stray_flag_rule(rep, R4, enc.body, where)
+    if enc.search is not None and not rep.pid == "C10":
+        # (C10 runs this rule itself under R10.4)
+        from c10 import match_kept_rule
+        before = len(rep.violations)
+        sub_ok = rep.rules[R4]["ok"]
+        match_kept_rule(rep, R4, enc, where)
+        if len(rep.violations) == before:
+            # keep instance counts as they were: the rule's own ok line is C10's
+            rep.rules[R4]["instances"] -= rep.rules[R4]["ok"] - sub_ok
+            rep.rules[R4]["ok"] = sub_ok
     """forms: list of (class predicate on recorded length conds, [spec bytes]) for the reference branch.
     Returns the set of literal thresholds seen."""
     read, cnt, gsize = loop_vars(enc)
@@ -315,6 +470,26 @@ def token_checks(rep, R2, R4, enc, forms, where, flag_shift=7):
             seen_forms[key] = got
     if unknown_emission:
         rep.inconc(R2, "%s: token emission not recognised: %s" % (enc.body.name.rsplit("::", 2)[-2], unknown_emission))
+        # what does not depend on how the bytes are stored: one literal step consumes one input byte per token it counts
+        lit_adv = set()
+        for p in enc.loop_paths():
+            cls_ = enc.branch_of(p)
+            if not any(op == "Lt" and truth for (op, c, truth) in cls_):
+                continue
+            env = p.env or {}
+            nr, nc = env.get(read[1]), env.get(cnt[1])
+            if nr is None or nc is None:
+                continue
+            from binser import affine as _aff
+            ar, ac = _aff(nr, None), _aff(nc, None)
+            if ar is None or ac is None:
+                continue
+            dr = {k: v for k, v in ar[0].items() if norm(k) != norm(read)}
+            dc = {k: v for k, v in ac[0].items() if norm(k) != norm(cnt)}
+            if (dr, ar[1]) != (dc, ac[1]) and ac[1] == 1 and not dc:
+                lit_adv.add(fmt(norm(nr))[:70])
+        if lit_adv:
+            rep.violation(R4, enc.body.name, "advance-literal", "a literal step counts one token (one flag bit) but moves the read position to %s: more than one input byte can go under a single literal flag" % sorted(lit_adv)[0], where)
         return thresholds
     for name, pred, spec in forms:
         hits = [(k, v) for k, v in seen_forms.items() if k != "flag" and pred(k)]
